@@ -370,7 +370,7 @@ with parse_for_header (fuel : nat) (ln : nat) (names : list bytes) (p : pst) : M
               if negb ok then ret ENil p3
               else
                 let* (b, p4) := parse_block f [] (next p3) in
-                ret (EFor k v it b) (if cur_is p4 RBRACE then next p4 else p4)
+                ret (EFor k v it b) p4
           end
   end
 
